@@ -24,10 +24,14 @@ func pick[T any](rng *rand.Rand, xs []T) T { return xs[rng.IntN(len(xs))] }
 
 func genPeer(rng *rand.Rand, allowRaw bool) PeerSpec {
 	if allowRaw && rng.IntN(6) == 0 {
-		return PeerSpec{Kind: "raw", Mode: pick(rng, []string{"silent", "partial", "garbage", "stall"}), Proto: "tcp"}
+		return PeerSpec{Kind: "raw", Mode: pick(rng, []string{"silent", "partial", "garbage", "stall", "mcast2"}), Proto: "tcp"}
 	}
-	return PeerSpec{Kind: "client", Mode: pick(rng, []string{"play", "play", "record"}), Proto: pick(rng, []string{"udp", "tcp"}),
+	ps := PeerSpec{Kind: "client", Mode: pick(rng, []string{"play", "play", "record"}), Proto: pick(rng, []string{"udp", "tcp"}),
 		Park: 1 + rng.IntN(StepFlow2)}
+	if ps.Mode == "play" && rng.IntN(6) == 0 {
+		ps.Proto = "mcast"
+	}
+	return ps
 }
 
 func genSpec(rng *rand.Rand, id int) Spec {
@@ -64,6 +68,9 @@ func genSpec(rng *rand.Rand, id int) Spec {
 			break
 		}
 		sp.Peers = append(sp.Peers, PeerSpec{Kind: "client", Mode: pick(rng, []string{"play", "play", "record"}), Proto: pick(rng, []string{"udp", "tcp"})})
+		if sp.Peers[0].Mode == "play" && rng.IntN(6) == 0 {
+			sp.Peers[0].Proto = "mcast"
+		}
 		for i := 1; i < n; i++ {
 			sp.Peers = append(sp.Peers, genPeer(rng, true))
 		}
@@ -87,17 +94,24 @@ func genSpec(rng *rand.Rand, id int) Spec {
 	case "stream":
 		n := 1 + rng.IntN(4)
 		for i := 0; i < n; i++ {
-			sp.Peers = append(sp.Peers, PeerSpec{Kind: "client", Mode: "play", Proto: pick(rng, []string{"udp", "tcp"}), Park: StepSetup0 + rng.IntN(StepFlow2-StepSetup0+1)})
+			sp.Peers = append(sp.Peers, PeerSpec{Kind: "client", Mode: "play", Proto: pick(rng, []string{"udp", "tcp", "tcp", "mcast"}), Park: StepSetup0 + rng.IntN(StepFlow2-StepSetup0+1)})
 		}
 		if rng.IntN(5) == 0 {
 			sp.Peers = append(sp.Peers, PeerSpec{Kind: "raw", Mode: "stall", Proto: "tcp"})
 			sp.Hammer = true
+		}
+		if rng.IntN(4) == 0 {
+			// a multicast reader whose second SETUP races with ServerStream.Close (fixed: 9233c87)
+			sp.Peers = append(sp.Peers, PeerSpec{Kind: "raw", Mode: "mcast2", Proto: "mcast"})
 		}
 		sp.ClosePoint = rng.IntN(NumSteps)
 		sp.Joiner = rng.IntN(3) == 0
 		sp.PeerTeardown = rng.IntN(3) == 0
 	case "client":
 		sp.Peers = []PeerSpec{{Kind: "client", Mode: pick(rng, []string{"play", "play", "record"}), Proto: pick(rng, []string{"udp", "tcp"})}}
+		if sp.Peers[0].Mode == "play" && rng.IntN(6) == 0 {
+			sp.Peers[0].Proto = "mcast"
+		}
 		sp.ClosePoint = rng.IntN(StepTeardown)
 		k := rng.IntN(100)
 		switch {
@@ -128,7 +142,10 @@ func sweep(rng *rand.Rand) []Spec {
 			if target == "stream" && mode == "record" {
 				continue
 			}
-			for _, proto := range []string{"udp", "tcp"} {
+			for _, proto := range []string{"udp", "tcp", "mcast"} {
+				if proto == "mcast" && (mode == "record" || target == "session") {
+					continue
+				}
 				for cp := 0; cp < NumSteps; cp++ {
 					if target == "client" && cp == StepTeardown {
 						continue
